@@ -717,7 +717,25 @@ impl C10 {
         };
         let want_len = got.len();
         // (6) equals what consensus charges, given truthful declared costs
-        let all_truthful = accepted.iter().all(|a| a.truthful);
+        // the same coin spent twice (a byte-identical spend offered again, in the same or in a
+        // later attempt) must be emitted twice — "exactly the spends of the accepted attempts";
+        // consensus then rejects the block as a double spend, so the consensus comparison is
+        // skipped for such histories (filtering conflicting bundles is the caller's job)
+        let mut coins = std::collections::BTreeSet::new();
+        let mut same_coin_twice = false;
+        for acc in &accepted {
+            for b in &acc.bundles {
+                for cs in &b.coin_spends {
+                    if !coins.insert((cs.coin.parent_coin_info, cs.coin.puzzle_hash, cs.coin.amount)) {
+                        same_coin_twice = true;
+                    }
+                }
+            }
+        }
+        if same_coin_twice {
+            c.inc("probe.history_with_the_same_spend_accepted_twice");
+        }
+        let all_truthful = accepted.iter().all(|a| a.truthful) && !same_coin_twice;
         if all_truthful {
             c.inc("histories.validated_by_run_block_generator2");
             let mut vf = flags;
@@ -861,6 +879,7 @@ impl Engine for C10 {
         let nops = if deep { rng.range(14, 40) as usize } else { nops };
         let fault_pct = *rng.pick(&[0u64, 10, 25, 50]);
         let mut parent_counter = rng.below(1 << 40);
+        let mut recent: Vec<SpendSpec> = vec![];
         // swarm: some histories consist only of spends that share nothing with each other or
         // with the generator's wrapper (no `1`, no `q`, no common amounts or vocabulary), in
         // bundles of at least opaque_min spends: whatever the size estimate charges per spend,
@@ -893,6 +912,13 @@ impl Engine for C10 {
                 let mut spends = vec![];
                 for _ in 0..ns {
                     parent_counter += 1;
+                    // one spend in 30 is a byte-identical copy of a recent one (same bundle, same
+                    // batch or an earlier attempt): it must be emitted as often as it was accepted
+                    if !recent.is_empty() && rng.chance(1, 30) {
+                        let dup = rng.pick(&recent).clone();
+                        spends.push(dup);
+                        continue;
+                    }
                     if opaque_only || rng.chance(1, 25) {
                         spends.push(SpendSpec {
                             parent_seed: parent_counter,
@@ -904,6 +930,9 @@ impl Engine for C10 {
                             // others in its bundle quotes them one time in three
                             opaque: if opaque_only && !spends.is_empty() && rng.chance(1, 3) { 4 } else { 1 + rng.below(3) as u8 },
                         });
+                        if spends.last().unwrap().opaque != 4 {
+                            recent.push(spends.last().unwrap().clone());
+                        }
                         continue;
                     }
                     let nc = match rng.below(8) {
@@ -946,6 +975,10 @@ impl Engine for C10 {
                         });
                     }
                     spends.push(SpendSpec { parent_seed: parent_counter, amount, conds, quoted: rng.chance(1, 4), backrefs: rng.chance(1, 10), opaque: 0 });
+                    recent.push(spends.last().unwrap().clone());
+                    if recent.len() > 12 {
+                        recent.remove(0);
+                    }
                 }
                 let corrupt = if !spends.is_empty() && rng.below(100) < fault_pct / 2 {
                     let spend = rng.usize_below(spends.len()) as u8;
